@@ -305,6 +305,107 @@ def r11_2(ctx, prog, crate):
         ctx.check(len(div) >= 1, "R11.2", ["Timestamp::duration_since", "mixed-kinds-unreachable"], "mixed timestamp kinds do not diverge", b.where(0))
 
 
+def _r11_3_relational(ctx, prog, crate, b, ds, rel):
+    """The same clause when the three-way `match sample.cmp(&min)` is spelled `if sample < min { .. } else if sample == min
+    { .. } else { .. }`: one relational test of the sample against the running minimum splits every iteration into the
+    region where the sample is smaller (the only place the minimum may be replaced, by the sample) and the region where
+    it is not (the only place the minimum may be returned from)."""
+    from .C03 import _root_local
+    op = rel.callee.rsplit("::", 1)[-1]
+    def is_sample_local(l):
+        """l holds the sample just measured: defined once, by the duration_since call (or a move of its result)."""
+        for _ in range(4):
+            d = b.prov.defs.get(l, []) if l is not None else []
+            if len(d) != 1:
+                return False
+            if d[0][0] == "C":
+                return d[0][1] == ds.bb
+            rv = d[0][3]["rv"]
+            l = rv["o"]["p"]["l"] if d[0][0] == "S" and rv["k"] == "use" and rv["o"]["k"] in ("copy", "move") and not rv["o"]["p"]["proj"] else None
+        return False
+
+    def referent0(o):
+        l = o["p"]["l"] if o.get("k") in ("copy", "move") and not o["p"]["proj"] else None
+        for _ in range(4):
+            d = b.prov.defs.get(l, []) if l is not None else []
+            if len(d) != 1 or d[0][0] != "S":
+                break
+            rv = d[0][3]["rv"]
+            if rv["k"] == "ref" and not rv["p"]["proj"]:
+                return rv["p"]["l"]
+            l = rv["o"]["p"]["l"] if rv["k"] == "use" and rv["o"]["k"] in ("copy", "move") and not rv["o"]["p"]["proj"] else None
+        return l
+    a_is_sample = is_sample_local(referent0(rel.args[0]))
+    b_is_sample = is_sample_local(referent0(rel.args[1]))
+    if not ctx.check(a_is_sample != b_is_sample, "R11.3", ["measure_precision", "compares-the-sample"], "the comparison is not between the sample just measured and the running minimum", rel.line()):
+        return
+
+    def referent(o):
+        l = o["p"]["l"] if o.get("k") in ("copy", "move") and not o["p"]["proj"] else None
+        for _ in range(4):
+            d = b.prov.defs.get(l, []) if l is not None else []
+            if len(d) != 1 or d[0][0] != "S":
+                break
+            rv = d[0][3]["rv"]
+            if rv["k"] == "ref" and not rv["p"]["proj"]:
+                return rv["p"]["l"]
+            l = rv["o"]["p"]["l"] if rv["k"] == "use" and rv["o"]["k"] in ("copy", "move") and not rv["o"]["p"]["proj"] else None
+        return l
+    ml = referent(rel.args[1] if a_is_sample else rel.args[0])
+    sw = None
+    for x_, t_ in b.switches():      # the branch on the bool the comparison returned
+        if t_["discr"].get("k") in ("copy", "move") and not t_["discr"]["p"]["proj"] and t_["discr"]["p"]["l"] == rel.dest["l"] and b.dominates(rel.bb, x_):
+            sw = (x_, t_)
+    if not ctx.check(ml is not None and sw is not None, "R11.3", ["measure_precision", "match-on-ordering"], "no branch on the comparison's result", rel.line()):
+        return
+    arms, otherwise = tables.arm_targets(sw[1])
+    t_true, t_false = arms.get(1, otherwise), arms.get(0, otherwise)
+    # sample < min holds on: lt(sample,min) true, gt(min,sample) true, ge(sample,min) false, le(min,sample) false
+    smaller_when_true = (op == "lt" and a_is_sample) or (op == "gt" and b_is_sample)
+    smaller_when_false = (op == "ge" and a_is_sample) or (op == "le" and b_is_sample)
+    if not ctx.check(smaller_when_true or smaller_when_false, "R11.3", ["measure_precision", "strictly-smaller-test"],
+                     "the test `%s` does not single out samples strictly smaller than the minimum" % op, rel.line()):
+        return
+    less_t, ge_t = (t_true, t_false) if smaller_when_true else (t_false, t_true)
+    lp = b.innermost_loop(rel.bb)
+    stop = [lp["header"]] if lp else []
+    less_blocks = tables.exclusive_blocks(b, less_t, [ge_t], stop=stop)
+    defs = b.prov.defs.get(ml, [])
+    init = [d for d in defs if d[0] == "S" and lp is not None and d[1] not in lp["body"] and not any(d[1] in l["body"] for l in b.loops)]
+    upd = [d for d in defs if d not in init]
+    ok_init = len(init) == 1 and init[0][3]["rv"]["k"] == "use" and init[0][3]["rv"]["o"]["k"] == "const" and "FineDuration::MAX" in str(init[0][3]["rv"]["o"]["c"].get("uneval") or init[0][3]["rv"]["o"]["c"].get("d"))
+    ctx.check(ok_init, "R11.3", ["measure_precision", "starts-at-the-sentinel"], "the running minimum does not start at FineDuration::MAX", b.where(init[0][1]) if init else b.where(0))
+    ok_upd = len(upd) >= 1 and all(d[0] == "S" and d[1] in less_blocks and any(z.kind == "call" and z.b == ds.bb for z in b.prov._rv(d[3]["rv"], (), frozenset(), d[1], d[2])) for d in upd)
+    ctx.check(ok_upd, "R11.3", ["measure_precision", "replaced-only-by-a-smaller-sample"],
+              "the running minimum is assigned outside the `sample < min` branch or from something other than the sample", b.where(upd[0][1]) if upd else b.where(0))
+    rets = [(bi, s_) for bi, si, s_ in b.stmts() if s_["k"] == "assign" and s_["p"]["l"] == 0 and not s_["p"]["proj"]]
+    bad = []
+    for bi, s_ in rets:
+        from_min = s_["rv"]["k"] == "use" and s_["rv"]["o"]["k"] in ("copy", "move") and _root_local(b, s_["rv"]["o"]) == ml
+        if not (from_min and b.dominates(ge_t, bi)):
+            bad.append(b.where(bi))
+    ctx.check(bool(rets) and not bad, "R11.3", ["measure_precision", "reported-after-a-real-sample"],
+              "measure_precision returns at %s without standing on the `sample >= min` side of a comparison with a measured sample: the sentinel FineDuration::MAX "
+              "(or something other than the minimum) can be reported" % bad, b.where(0))
+    zs = [c for c in b.live_calls() if c.callee.endswith("FineDuration::is_zero") and any(z.kind == "call" and z.b == ds.bb for z in b.prov.op_src(c.args[0]))]
+    okz = False
+    for c in zs:
+        for x, t in b.switches():
+            if t["discr"]["k"] in ("copy", "move") and t["discr"]["p"]["l"] == c.dest["l"]:
+                f_t = [a[1] for a in t["arms"] if a[0] == "0"]
+                okz = bool(f_t) and b.dominates(f_t[0], rel.bb) and rel.bb not in b.reach([t["otherwise"]], avoid=stop + [f_t[0]])
+    ctx.check(okz, "R11.3", ["measure_precision", "zero-samples-discarded"], "a zero difference can reach the comparison with the running minimum", rel.line())
+    _r11_3_precision_cache(ctx, prog, crate)
+
+
+def _r11_3_precision_cache(ctx, prog, crate):
+    pb = prog.body("time::timer::Timer::precision", crate)
+    if ctx.anchor("R11.3", "Timer::precision", 1 if pb else 0, 1):
+        tree = prog.closure_tree(pb)
+        names = {c.callee for x in tree for c in x.live_calls()}
+        ctx.check("time::timer::Timer::measure_precision" in names, "R11.3", ["Timer::precision", "is-the-measured-value"], "Timer::precision does not come from measure_precision", pb.where(0))
+
+
 def r11_3(ctx, prog, crate):
     """Structural part of the precision clause (the convergence itself is a run-time matter): Timer::measure_precision
     reports the SMALLEST NON-ZERO step it observed - the running minimum starts at the sentinel FineDuration::MAX, is
@@ -317,6 +418,10 @@ def r11_3(ctx, prog, crate):
     ctx.saw(b)
     ds = [c for c in b.live_calls() if c.callee == "time::timestamp::Timestamp::duration_since"]
     cm = [c for c in b.live_calls() if c.callee.rsplit("::", 1)[-1] == "cmp" and len(c.args) == 2]
+    if len(ds) == 1 and not cm:
+        rel = [c for c in b.live_calls() if "PartialOrd" in c.callee and c.callee.rsplit("::", 1)[-1] in ("lt", "le", "gt", "ge") and len(c.args) == 2]
+        if len(rel) == 1:
+            return _r11_3_relational(ctx, prog, crate, b, ds[0], rel[0])
     if not ctx.check(len(ds) == 1 and len(cm) == 1, "R11.3", ["measure_precision", "one-sample-one-comparison"], "duration_since x%d cmp x%d" % (len(ds), len(cm)), b.where(0)):
         return
     ds, cm = ds[0], cm[0]
